@@ -9,7 +9,8 @@ ID = "C08"
 AREA = "c08"
 LEAN_PROPS = "Litep2pVerif.Props.C08"
 THEOREMS = ["alternation", "closed_iff_last", "substream_refers_connected", "open_answered_at_most_once",
-            "open_answered_once_unless_closed", "ids_fresh", "outbound_open_answered_by_loop"]
+            "open_answered_once_unless_closed", "ids_fresh", "outbound_open_answered_by_loop",
+            "force_close_keeps_context"]
 CONSTS = ["PROTOCOL_COMMAND_CHANNEL_SIZE", "YAMUX_MAX_ACK_BACKLOG"]
 _YAMUX = (sorted(glob.glob(os.path.expanduser("~/.cargo/registry/src/*/yamux-0.13.10/src/lib.rs")))
           or sorted(glob.glob(os.path.expanduser("~/.cargo/registry/src/*/yamux-0.13*/src/lib.rs"))) or ["yamux/src/lib.rs"])[0]
@@ -21,14 +22,18 @@ CONST_TABLE = [
 ]
 MANIFEST = {
     "text": "Lean 4 theorems about an operational model of TransportService::{on_connection_established, "
-            "on_connection_closed, open_substream} and its event paths: alternation and ids_fresh for EVERY history "
-            "(feasible or not); closed_iff_last, substream_refers_connected, open_answered_at_most_once and "
+            "on_connection_closed, open_substream, force_close} (plus the methods that only delegate to the manager handle) "
+            "and its event paths: alternation and ids_fresh for EVERY history (feasible or not, with force_close and the "
+            "delegating calls at any point); force_close_keeps_context: force_close changes nothing in the service's state, "
+            "the protocol's observations of everything else and the environment's possibilities are those of the history "
+            "without the call, and exactly the connections of the peer's context are told to close; closed_iff_last, substream_refers_connected, open_answered_at_most_once and "
             "open_answered_once_unless_closed for every history the environment (manager: at most 2 live connections per "
             "peer, fresh ids, close only for announced; connection task: answers only received commands, with the same id) "
             "can produce, written as an explicit acceptor. Tie: the real TransportService with injected "
             "InnerTransportEvents and harness-owned command receivers is run against the model's executable definitions "
-            "(state compared after every drain), plus a property-level grammar oracle on the emitted event stream; thorough "
-            "enumerates every panic-free event order: 1 peer x 3 connections with repetition up to length 7, 2 peers x 2 connections (each event once) up to length 8, 2 peers x 3 connections up to length 5. "
+            "(state compared after every drain and after every force_close), plus a property-level grammar oracle on the emitted event stream; thorough "
+            "enumerates every panic-free event order: 1 peer x 3 connections with repetition up to length 7, 2 peers x 2 connections (each event once) up to length 8, 2 peers x 3 connections up to length 5, "
+            "and force_close at every point: 1 peer x 2 connections + force with repetition up to length 7, 2 peers x 2 connections + one force per peer up to length 6. "
             "outbound_open_answered_by_loop discharges the connection-task half of that environment hypothesis for the TCP "
             "connection task (model Model/Conn/Permits.lean: requested -> yamux open pending -> negotiating -> answered): for "
             "every schedule a pending request stays pending, for the same protocol, until its own future ends; the failure/"
@@ -52,14 +57,19 @@ RULE = ("tcploop (extra area): fixed, burst (257-300 open requests in chunks or 
         "hold, accept, half-close, race, span and random families of checks/tcploop.py with focus C08; c08: "
         "seeded histories over 2 peers x up to 3 connections each: a feasible stream (environment simulated: <=2 live "
         "connections, closes of live connections in either order, opens, command receipt, answers by success/failure, "
-        "dropped tasks, clogged channels of capacity 1-3, foreign id allocations) and an infeasible stream (third "
-        "connections, closes of unknown connections, duplicate/unknown answers, repeated ids); every case ends by "
+        "dropped tasks, clogged channels of capacity 1-3, foreign id allocations, force_close followed by the closes of the "
+        "peer's connections in a random order with substream events between, calls of dial/dial_address/add_known_address/"
+        "local_peer_id/listen+public addresses/unregister_protocol), a force_close-with-overlapping-connections family (12 %: "
+        "two connections, pending/received/answered requests, full or dropped channel, force_close, primary-first or "
+        "secondary-first close, events of the surviving connection between) and an infeasible stream (third "
+        "connections, closes of unknown connections, duplicate/unknown answers, repeated ids, force_close anywhere); every case ends by "
         "draining the service; a case is non-trivial if the protocol saw an established and a closed event and one open "
         "was accepted; distinct = distinct (ops, observations) transcripts by SHA-256")
 TRUSTED_BASE = ["Lean 4.33 kernel", "axioms: propext, Classical.choice, Quot.sound only",
                 "hand-written models Model/Service/Conns.lean, Model/Service/Order.lean tied to transport_service.rs by this run",
-                "adapter /repo/src/verif/c08.rs (injects events through the service's own channel, reads `connections`), "
-                "harness, verif.py, checks/c08.py",
+                "adapter /repo/src/verif/c08.rs (injects events through the service's own channel, reads `connections`, owns the "
+                "command receivers of the connections and of the manager; the manager handle is built with TCP enabled and an "
+                "empty peer table that only add_known_address fills), harness, verif.py, checks/c08.py",
                 "tokio mpsc channels are FIFO with try_send = Closed | Full | Ok as documented",
                 "environment assumptions of Order.lean: manager admits <= 2 connections per peer and is told about a close "
                 "after the protocols (C06/C07), connection ids and substream ids come from shared counters",
@@ -68,7 +78,8 @@ TRUSTED_BASE = ["Lean 4.33 kernel", "axioms: propext, Classical.choice, Quot.sou
                 "advance by the requested amount; on a connection built with sot= the driver takes WHICH outbound requests timed "
                 "out during an operation from the implementation's observation (it cannot know the clock) and checks everything else",
                 "yamux (crate yamux 0.13.10 + litep2p's Control wrapper) is not modelled beyond: open_stream() may never return"]
-ASSUMPTIONS = ["the keep-alive timeout of the adapter (1 h) does not expire during a case, so handles stay Active",
+ASSUMPTIONS = ["the keep-alive timeout of the adapter (1 h) does not expire during a case, so handles stay Active "
+               "(force_close / open_substream on Inactive handles: C09 area, tcploop and node areas)",
                "tcploop timeout rule: a request that was accepted before a `sleep` of at least substream_open_timeout + 400 ms "
                "is taken by the connection task at the start of that operation at the latest (nobody paused, no channel filled)",
                "cooperative scheduling budget of tokio does not hide queued events (the adapter polls until Pending twice)"]
@@ -139,6 +150,9 @@ def gen_feasible(rng, n_ops):
             # force_close: any peer at any time; with two live connections script both close orders afterwards
             if pending and rng.random() < 0.7:
                 drain()
+            up = [q for q in PEERS if proc_conn[q]]
+            if up and rng.random() < 0.85:
+                p = rng.choice(up)
             force(p)
             cs = list(live[p])
             if cs and rng.random() < 0.8:
@@ -192,7 +206,7 @@ def gen_feasible(rng, n_ops):
         elif r < 0.90:
             ops.append(f"dialfail {p}")
         elif r < 0.93:
-            ops.append(manager_op(rng))
+            ops.extend(manager_ops(rng))
         else:
             drain()
         if pending and rng.random() < 0.4:
@@ -204,13 +218,16 @@ def gen_feasible(rng, n_ops):
     return ops
 
 
-def manager_op(rng):
-    """One call of a method that only delegates to the manager handle (never touches the service's state)."""
-    p = rng.choice(PEERS + [0, 3])
+def manager_ops(rng):
+    """Calls of methods that only delegate to the manager handle (they never touch the service's state)."""
+    p = rng.choice(PEERS + PEERS + [0, 3])
     kind = rng.choice(["tcp", "tcp", "tcpp", "tcpp", "wrong", "udp", "unspec"])
     port = rng.choice([1, 2, 3])
-    return rng.choice([f"known {p} {kind} {port}", f"known {p} {kind} {port}", f"dial {p}", f"dial {p}",
-                       f"dial_addr {p} {kind} {port}", "mgr_recv", "mgr_recv", "lpid", "addrs", "unregister"])
+    r = rng.random()
+    if r < 0.3:
+        return [f"known {p} {kind} {port}", f"dial {p}"] + ["mgr_recv"] * rng.randrange(0, 2)
+    return [rng.choice([f"known {p} {kind} {port}", f"dial {p}", f"dial_addr {p} {kind} {port}", "mgr_recv", "mgr_recv",
+                        "lpid", "addrs", "unregister"])]
 
 
 def gen_force_overlap(rng):
@@ -285,7 +302,7 @@ def gen_infeasible(rng, n_ops):
         elif r < 0.93:
             ops.append(f"force {p}")
         elif r < 0.95:
-            ops.append(manager_op(rng))
+            ops.extend(manager_ops(rng))
         else:
             ops.append("next")
     ops.append("next")
@@ -460,6 +477,7 @@ def oracle(case, out):
     pending = []                   # injected, unprocessed: (step, tokens)
     last_conns = "[]"              # `connections` as printed by the last drain
     force_sent = {}                # conn -> ForceClose commands it must have been sent and has not received yet
+    calls = []                     # API calls since the last drain
     for i, op in enumerate(case):
         if i >= len(out):
             break
@@ -469,6 +487,8 @@ def oracle(case, out):
             break
         if o == "bad-op":
             continue
+        if t[0] in ("open", "force", "known", "dial", "dial_addr", "unregister", "lpid", "addrs"):
+            calls.append(op)
         if t[0] == "cfg":
             cap = max(1, int(t[1]))
             last_conns = "[]"
@@ -493,7 +513,8 @@ def oracle(case, out):
                 break
             res, _, conns = o.partition(" conns=")
             if conns != last_conns:                                                                  # A4
-                v("force-changed-context", f"force_close changed the connection table from {last_conns} to {conns}", i)
+                v("force-changed-context", f"the connection table changed from {last_conns} (last drain) to {conns} (after "
+                  f"force_close) although no connection event was processed; calls since the drain: {', '.join(calls)}", i)
             if connected.get(p) and res == "err no-peer":
                 v("force-refused", f"peer {p} is connected but force_close says it does not exist", i)
             if not connected.get(p) and res != "err no-peer":
@@ -677,6 +698,7 @@ def oracle(case, out):
             a = o.find(" conns=")
             if a >= 0:
                 last_conns = o[a + 7:].split(" ")[0]
+            calls = []
     return bad
 
 
